@@ -11,8 +11,9 @@ enum { keep_alive = 1 };   /* http_server::flags_t */
 #define INV_hsrv(self) ((self)->m_bytes_used >= 0 && (size_t)(self)->m_bytes_used <= (self)->m_recv_buffer.size && (self)->m_recv_buffer.size <= HS_MAX && BOOL_OK((self)->m_close))
 extern size_t g_hs_reads, g_hs_read_off, g_hs_read_len;
 extern size_t g_hs_writes, g_hs_write_len; extern bool g_hs_write_close; extern int g_hs_write_kind;
+extern bool g_hs_last_wants_close;   /* whether the request parsed last carries 'Connection: close' (case-insensitive) */
 extern size_t g_hs_conn_closes, g_hs_accepts, g_hs_listen_closes, g_hs_handler_calls;
-#define HS_GHOST g_hs_reads, g_hs_read_off, g_hs_read_len, g_hs_writes, g_hs_write_len, g_hs_write_close, g_hs_write_kind, g_hs_conn_closes, g_hs_accepts, g_hs_listen_closes, g_hs_handler_calls
+#define HS_GHOST g_hs_reads, g_hs_read_off, g_hs_read_len, g_hs_writes, g_hs_write_len, g_hs_write_close, g_hs_write_kind, g_hs_last_wants_close, g_hs_conn_closes, g_hs_accepts, g_hs_listen_closes, g_hs_handler_calls
 #define HS_SMALL (g_hs_reads < 1000000 && g_hs_writes < 1000000 && g_hs_conn_closes < 1000000 && g_hs_accepts < 1000000 && g_hs_listen_closes < 1000000 && g_hs_handler_calls < 1000000)
 /* m_connection.async_read_some(asio::buffer(&m_recv_buffer[off], len), on_read) */
 static inline void hs_async_read_some(vstr_t *buf, size_t off, size_t len)
@@ -31,15 +32,15 @@ static inline int hs_find_request_len(vstr_t *buf, int len)
 /* parse_request(data, len): a request (opaque; path / headers identified by ids) or an exception (runtime_error) */
 struct hreq { bool threw; int path; int id; };
 struct hreq nondet_hreq(void);
+bool __CPROVER_uninterpreted_wants_close(int reqid);
 static inline struct hreq hs_parse_request(vstr_t *buf, int len)
 {
   __CPROVER_assert(len >= 4 && (size_t)len <= buf->size, "[C16.frame] the request handed to the parser lies inside the receive buffer");
-  struct hreq r = nondet_hreq(); __CPROVER_assume(BOOL_OK(r.threw)); return r;
+  struct hreq r = nondet_hreq(); __CPROVER_assume(BOOL_OK(r.threw)); g_hs_last_wants_close = __CPROVER_uninterpreted_wants_close(r.id); return r;
 }
 /* handler table: which paths are registered / stalling is the configuration's (uninterpreted in the path) */
 bool __CPROVER_uninterpreted_has_handler(int path);
 bool __CPROVER_uninterpreted_is_stall(int path);
-bool __CPROVER_uninterpreted_wants_close(int reqid);
 vstr_t nondet_vstr(void);
 enum { HS_RESP_404 = 404, HS_RESP_HANDLER = 1 };
 extern int g_hs_resp_kind;
